@@ -5,7 +5,11 @@ id=$1; wt=$2
 cd "$wt" || exit 2
 git diff -- src Cargo.toml > /tmp/verify_$id.diff
 [ -s /tmp/verify_$id.diff ] || { echo "$id: no source change in worktree"; exit 2; }
-run_demo() { (cd demo && CARGO_NET_OFFLINE=true cargo run --offline >/tmp/verify_$id.demo.$1.log 2>&1; echo $?); }
+run_demo() {
+  if [ -f demo/run.sh ]; then (cd demo && CARGO_NET_OFFLINE=true sh ./run.sh >/tmp/verify_$id.demo.$1.log 2>&1; echo $?)
+  elif [ -f demo/src/lib.rs ] && [ ! -f demo/src/main.rs ]; then (cd demo && CARGO_NET_OFFLINE=true cargo test --doc --offline >/tmp/verify_$id.demo.$1.log 2>&1; echo $?)
+  else (cd demo && CARGO_NET_OFFLINE=true cargo run --offline >/tmp/verify_$id.demo.$1.log 2>&1; echo $?); fi
+}
 with=$(run_demo with)
 git apply -R /tmp/verify_$id.diff
 without=$(run_demo without)
